@@ -7,4 +7,4 @@ for p in C01 C02 C03 C04 C05 C06 C07 C08 C09 C10 C11 C12 C13 C14 C15 C16 C17 C18
   timeout 900 ./check $p --tier quick --jobs 8 > scratch/quick_$p.log 2>&1
   echo "$p exit=$? wall=$(( $(date +%s) - s ))s $(grep -c '^KNOWN' scratch/quick_$p.log) known $(grep -E '^INCONCL|^VIOLATION' scratch/quick_$p.log | head -2 | cut -c1-200)" >> $out
 done
-git checkout -- evidence 2>/dev/null
+# (evidence files of this run are kept)
